@@ -5,7 +5,7 @@ import CpModel.Negotiate
 -/
 namespace CpProofs.C17
 
-open CpModel.Gzip
+open CpModel.Gzip CpModel.Negotiate
 
 theorem xor_ones_ones (x : UInt32) : (x ^^^ 0xFFFFFFFF) ^^^ 0xFFFFFFFF = x := by
   rw [UInt32.xor_assoc, UInt32.xor_self, UInt32.xor_zero]
@@ -45,5 +45,342 @@ theorem rd32_le32 (n : Nat) :
       (UInt8.ofNat (n / 16777216 % 256)) = n % 4294967296 := by
   simp only [rd32, UInt8.toNat_ofNat', Nat.reducePow]
   omega
+
+/-! ## negotiation: gzip -/
+
+def isGz (e : Elem) : Prop := e.value = sGzip ∨ e.value = sXGzip
+
+/-- the q of `e` is a number (neither malformed nor outside the decimal model) -/
+def qNumber (e : Elem) : Prop := e.q ≠ Q.bad ∧ e.q ≠ Q.exotic
+
+theorem gzipLoop_compress (ct : Str) (mimes : List Str) (els : List Elem)
+    (h : gzipLoop ct mimes els = some .compress) :
+    ∃ e ∈ els, isGz e ∧ qNumber e ∧ e.q.isZero = false ∧ mimeMatch ct mimes = .yes := by
+  induction els with
+  | nil => simp [gzipLoop] at h
+  | cons e es ih =>
+    simp only [gzipLoop] at h
+    split at h
+    · -- identity
+      split at h
+      · simp at h
+      · simp at h
+      · split at h
+        · obtain ⟨e', he', r⟩ := ih h
+          exact ⟨e', List.mem_cons_of_mem _ he', r⟩
+        · simp at h
+    · split at h
+      · rename_i hg
+        split at h
+        · simp at h
+        · simp at h
+        · rename_i q hb hx
+          split at h
+          · simp at h
+          · rename_i hz
+            refine ⟨e, List.mem_cons_self, hg, ⟨hb, hx⟩, by simpa using hz, ?_⟩
+            simp only [mimeDecision] at h
+            split at h <;> simp_all
+      · obtain ⟨e', he', r⟩ := ih h
+        exact ⟨e', List.mem_cons_of_mem _ he', r⟩
+
+theorem refusalLoop_ne_compress (els : List Elem) : refusalLoop els ≠ .compress := by
+  induction els with
+  | nil => simp [refusalLoop]
+  | cons e es ih =>
+    simp only [refusalLoop]
+    split
+    · split
+      · simp
+      · simp
+      · split
+        · simp
+        · exact ih
+    · exact ih
+
+/-- the loop falls off the end only if no gzip/x-gzip element is listed and every identity element has q = 0 -/
+theorem gzipLoop_none (ct : Str) (mimes : List Str) (els : List Elem)
+    (h : gzipLoop ct mimes els = none) :
+    (∀ e ∈ els, ¬ isGz e) ∧ (∀ e ∈ els, e.value = sIdentity → e.q.isZero = true) := by
+  induction els with
+  | nil => simp
+  | cons e es ih =>
+    simp only [gzipLoop] at h
+    split at h
+    · rename_i hid
+      split at h
+      · simp at h
+      · simp at h
+      · split at h
+        · rename_i hz
+          obtain ⟨h1, h2⟩ := ih h
+          refine ⟨?_, ?_⟩
+          · intro e' he'
+            rcases List.mem_cons.mp he' with rfl | hm
+            · intro hg
+              rcases hg with hg | hg <;> (rw [hid] at hg; revert hg; decide)
+            · exact h1 e' hm
+          · intro e' he' hv
+            rcases List.mem_cons.mp he' with rfl | hm
+            · exact hz
+            · exact h2 e' hm hv
+        · simp at h
+    · rename_i hid
+      split at h
+      · split at h
+        · simp at h
+        · simp at h
+        · split at h <;> simp at h
+      · rename_i hg
+        obtain ⟨h1, h2⟩ := ih h
+        refine ⟨?_, ?_⟩
+        · intro e' he'
+          rcases List.mem_cons.mp he' with rfl | hm
+          · exact hg
+          · exact h1 e' hm
+        · intro e' he' hv
+          rcases List.mem_cons.mp he' with rfl | hm
+          · exact absurd hv hid
+          · exact h2 e' hm hv
+
+theorem refusalLoop_406 (els : List Elem) (h : refusalLoop els = .notAcceptable) :
+    ∃ e ∈ els, (e.value = sIdentity ∨ e.value = sStar) ∧ e.q.isZero = true := by
+  induction els with
+  | nil => simp [refusalLoop] at h
+  | cons e es ih =>
+    simp only [refusalLoop] at h
+    split at h
+    · rename_i hv
+      split at h
+      · simp at h
+      · simp at h
+      · split at h
+        · rename_i hz
+          exact ⟨e, List.mem_cons_self, hv, hz⟩
+        · obtain ⟨e', he', r⟩ := ih h
+          exact ⟨e', List.mem_cons_of_mem _ he', r⟩
+    · obtain ⟨e', he', r⟩ := ih h
+      exact ⟨e', List.mem_cons_of_mem _ he', r⟩
+
+/-! ## ordering -/
+
+theorem ins_perm (lt : Elem → Elem → Bool) (x : Elem) (l : List Elem) : (ins lt x l).Perm (x :: l) := by
+  induction l with
+  | nil => exact List.Perm.refl _
+  | cons y ys ih =>
+    simp only [ins]
+    split
+    · exact (List.Perm.cons y ih).trans (List.Perm.swap x y ys)
+    · exact List.Perm.refl _
+
+/-- `sorted` returns a permutation of its input -/
+theorem sortAsc_perm (lt : Elem → Elem → Bool) (l : List Elem) : (sortAsc lt l).Perm l := by
+  induction l with
+  | nil => exact List.Perm.refl _
+  | cons x xs ih =>
+    simp only [sortAsc]
+    exact (ins_perm lt x _).trans (List.Perm.cons x ih)
+
+/-- ascending in the q key -/
+def AscKey (l : List Elem) : Prop := l.Pairwise (fun a b => a.q.key ≤ b.q.key)
+
+theorem acceptLt_key {a b : Elem} (h : acceptLt a b = true) : a.q.key ≤ b.q.key := by
+  simp only [acceptLt, Q.eq, Q.lt] at h
+  by_cases he : a.q.key = b.q.key
+  · omega
+  · simp only [he, decide_false, Bool.false_eq_true, if_false, decide_eq_true_eq] at h
+    omega
+
+theorem not_acceptLt_key {a b : Elem} (h : ¬ acceptLt a b = true) : b.q.key ≤ a.q.key := by
+  simp only [acceptLt, Q.eq, Q.lt] at h
+  by_cases he : a.q.key = b.q.key
+  · omega
+  · simp only [he, decide_false, Bool.false_eq_true, if_false, decide_eq_true_eq] at h
+    omega
+
+theorem ins_asc (x : Elem) (l : List Elem) (h : AscKey l) : AscKey (ins acceptLt x l) := by
+  induction l with
+  | nil => simp [ins, AscKey]
+  | cons y ys ih =>
+    simp only [ins]
+    have hy := List.pairwise_cons.mp h
+    split
+    · rename_i hlt
+      have hk := acceptLt_key hlt
+      refine List.pairwise_cons.mpr ⟨?_, ih hy.2⟩
+      intro z hz
+      have := (ins_perm acceptLt x ys).mem_iff.mp hz
+      rcases List.mem_cons.mp this with rfl | hm
+      · exact hk
+      · exact hy.1 z hm
+    · rename_i hlt
+      have hk := not_acceptLt_key hlt
+      refine List.pairwise_cons.mpr ⟨?_, h⟩
+      intro z hz
+      rcases List.mem_cons.mp hz with rfl | hm
+      · exact hk
+      · have := hy.1 z hm
+        omega
+
+/-- `sorted(result)` is ascending in q -/
+theorem sortAsc_sorted (l : List Elem) : AscKey (sortAsc acceptLt l) := by
+  induction l with
+  | nil => simp [sortAsc, AscKey]
+  | cons x xs ih => exact ins_asc x _ ih
+
+/-- descending in the q key -/
+def DescKey (l : List Elem) : Prop := l.Pairwise (fun a b => b.q.key ≤ a.q.key)
+
+/-- the list every consumer iterates over (`reversed(sorted(...))`) is in descending q order, and is a
+    permutation of the parsed elements -/
+theorem acceptElements_descending (v : Option Str) (els : List Elem)
+    (h : acceptElements v = .ok els) : DescKey els := by
+  unfold acceptElements at h
+  split at h
+  · cases h; simp [DescKey]
+  · cases h; simp [DescKey]
+  · simp only at h
+    split at h
+    · split at h
+      · simp at h
+      · split at h
+        · simp at h
+        · cases h
+          exact List.pairwise_reverse.mpr (sortAsc_sorted _)
+    · cases h
+      rename_i hl
+      generalize List.map acceptFromStr _ = l at hl ⊢
+      match l, hl with
+      | [], _ => simp [DescKey]
+      | [a], _ => simp [DescKey]
+      | _ :: _ :: _, hl => simp at hl
+
+/-! ## charset negotiation -/
+
+/-- the charset an element stands for: `*` means the default -/
+def nameOf (e : Elem) : Str := if e.value = sStar then sUtf8 else e.value
+
+theorem tryEnc_true (can : Str → Bool) (att : List Str) (n : Str)
+    (h : (tryEnc can false att n).1 = true) : can n = true := by
+  simp only [tryEnc] at h
+  split at h <;> simp_all
+
+theorem tryEnc_false (can : Str → Bool) (att : List Str) (n : Str)
+    (hinv : ∀ m ∈ att, can m = false) (h : (tryEnc can false att n).1 = false) :
+    can n = false ∧ ∀ m ∈ (tryEnc can false att n).2, can m = false := by
+  simp only [tryEnc] at h ⊢
+  split
+  · rename_i hc
+    have hm : n ∈ att := List.contains_iff_mem.mp hc
+    exact ⟨hinv n hm, hinv⟩
+  · rename_i hc
+    simp only [hc] at h
+    have hn : can n = false := by simpa using h
+    refine ⟨hn, ?_⟩
+    intro m hm
+    rcases List.mem_cons.mp hm with rfl | hm'
+    · exact hn
+    · exact hinv m hm'
+
+theorem csLoop_cons (can : Str → Bool) (stream : Bool) (e : Elem) (es : List Elem) (att : List Str) :
+    csLoop can stream (e :: es) att =
+      match e.q with
+      | .bad => .inl .err400
+      | .exotic => .inl .exotic
+      | q =>
+        if q.isPos then
+          if (tryEnc can stream att (nameOf e)).1 then .inl (.chosen (nameOf e))
+          else csLoop can stream es (tryEnc can stream att (nameOf e)).2
+        else csLoop can stream es att := by
+  simp only [csLoop, nameOf]
+  rfl
+
+/-- buffered loop, a charset was chosen: it is the first element with q > 0 whose charset can encode
+    the body; every earlier element with q > 0 cannot -/
+theorem csLoop_chosen (can : Str → Bool) (es : List Elem) (att : List Str) (c : Str)
+    (hinv : ∀ m ∈ att, can m = false) (h : csLoop can false es att = .inl (.chosen c)) :
+    ∃ pre e post, es = pre ++ e :: post ∧ e.q.isPos = true ∧ c = nameOf e ∧ can c = true ∧
+      ∀ e' ∈ pre, e'.q.isPos = true → can (nameOf e') = false := by
+  induction es generalizing att with
+  | nil => simp [csLoop] at h
+  | cons e es ih =>
+    rw [csLoop_cons] at h
+    split at h
+    · simp at h
+    · simp at h
+    · split at h
+      · rename_i hpos
+        split at h
+        · rename_i htry
+          have hc : c = nameOf e := by
+            simp only [Sum.inl.injEq, CsResult.chosen.injEq] at h
+            exact h.symm
+          refine ⟨[], e, es, rfl, hpos, hc, ?_, by simp⟩
+          rw [hc]; exact tryEnc_true can att _ htry
+        · rename_i htry
+          have hf := tryEnc_false can att _ hinv (by simpa using htry)
+          obtain ⟨pre, e1, post, hes, hp, hc, hcan, hpre⟩ := ih _ hf.2 h
+          refine ⟨e :: pre, e1, post, by simp [hes], hp, hc, hcan, ?_⟩
+          intro e' he' hq
+          rcases List.mem_cons.mp he' with rfl | hm
+          · exact hf.1
+          · exact hpre e' hm hq
+      · rename_i hpos
+        obtain ⟨pre, e1, post, hes, hp, hc, hcan, hpre⟩ := ih _ hinv h
+        refine ⟨e :: pre, e1, post, by simp [hes], hp, hc, hcan, ?_⟩
+        intro e' he' hq
+        rcases List.mem_cons.mp he' with rfl | hm
+        · exact absurd hq hpos
+        · exact hpre e' hm hq
+
+/-- buffered loop, nothing chosen: no element with q > 0 can encode the body -/
+theorem csLoop_inr (can : Str → Bool) (es : List Elem) (att att' : List Str)
+    (hinv : ∀ m ∈ att, can m = false) (h : csLoop can false es att = .inr att') :
+    (∀ m ∈ att', can m = false) ∧ ∀ e ∈ es, e.q.isPos = true → can (nameOf e) = false := by
+  induction es generalizing att with
+  | nil =>
+    simp only [csLoop, Sum.inr.injEq] at h
+    subst h
+    exact ⟨hinv, by simp⟩
+  | cons e es ih =>
+    rw [csLoop_cons] at h
+    split at h
+    · simp at h
+    · simp at h
+    · split at h
+      · rename_i hpos
+        split at h
+        · simp at h
+        · rename_i htry
+          have hf := tryEnc_false can att _ hinv (by simpa using htry)
+          obtain ⟨h1, h2⟩ := ih _ hf.2 h
+          refine ⟨h1, ?_⟩
+          intro e' he' hq
+          rcases List.mem_cons.mp he' with rfl | hm
+          · exact hf.1
+          · exact h2 e' hm hq
+      · rename_i hpos
+        obtain ⟨h1, h2⟩ := ih _ hinv h
+        refine ⟨h1, ?_⟩
+        intro e' he' hq
+        rcases List.mem_cons.mp he' with rfl | hm
+        · exact absurd hq hpos
+        · exact h2 e' hm hq
+
+
+theorem csLoop_ne_406 (can : Str → Bool) (stream : Bool) (es : List Elem) (att : List Str) :
+    csLoop can stream es att ≠ .inl .notAcceptable := by
+  induction es generalizing att with
+  | nil => simp [csLoop]
+  | cons e es ih =>
+    rw [csLoop_cons]
+    split
+    · simp
+    · simp
+    · split
+      · split
+        · simp
+        · exact ih _
+      · exact ih _
 
 end CpProofs.C17
